@@ -103,6 +103,10 @@ type c04Case struct {
 // (both mean: no directory name to compare with).
 var c04URIIssuer = func() bool { return false }
 
+// c04NoSerial: when set, an AKI that names the signer's issuer leaves the serial number out (RFC 5280 wants the two as a pair;
+// a CRL is attacker-supplied input and need not comply)
+var c04NoSerial = func() bool { return false }
+
 func c04AKI(kid int, serFrom *c04Cert, emptyIssuer bool) (string, []byte) {
 	var parts [][]byte
 	k, s, i := "-", "-", "-"
@@ -116,6 +120,9 @@ func c04AKI(kid int, serFrom *c04Cert, emptyIssuer bool) (string, []byte) {
 			i = fmt.Sprint(serFrom.Issuer)
 		} else if c04URIIssuer() {
 			parts = append(parts, derTLV(0xA1, derTLV(0x86, []byte("http://ca.example/issuer"))))
+		}
+		if !emptyIssuer && c04NoSerial() {
+			return fmt.Sprintf("kid=%s;ser=%s;iss=%s", k, s, i), derSeq(parts...)
 		}
 		sb := serFrom.Cert.SerialNumber.Bytes()
 		if len(sb) > 0 && sb[0]&0x80 != 0 {
@@ -131,6 +138,7 @@ func c04Matrix(r *Run) {
 	c04Setup()
 	rng := r.Rng
 	c04URIIssuer = func() bool { return rng.Intn(2) == 0 }
+	c04NoSerial = func() bool { return false }
 	n := 260
 	if r.Thorough() {
 		n = 6000
@@ -151,6 +159,16 @@ func c04Matrix(r *Run) {
 	sArg, sDer = c04AKI(0, c04Certs["t9"], true)
 	cases = append(cases, c04Case{Issuer: 7, AKI: sArg, AKIDer: sDer, Signer: "t9", Chains: [][]string{{"L", "ca1"}}, Trusted: []string{"t9"}, Leaf: "leaf"})
 	// the end-entity as the only certificate of its chain (pinned in the trust pool) signing a CRL about itself
+	// AKI forms outside the profile: issuer name without serial number (alone / next to a key id), an empty SEQUENCE
+	c04NoSerial = func() bool { return true }
+	nArg, nDer := c04AKI(0, c04Certs["ca1"], false)
+	cases = append(cases, c04Case{Issuer: 7, AKI: nArg, AKIDer: nDer, Signer: "ca1", Chains: [][]string{{"L", "ca1"}}, Leaf: "leaf"})
+	nArg, nDer = c04AKI(71, c04Certs["ca1"], false)
+	cases = append(cases, c04Case{Issuer: 7, AKI: nArg, AKIDer: nDer, Signer: "ca1", Chains: [][]string{{"L", "ca1"}}, Leaf: "leaf"})
+	nArg, nDer = c04AKI(0, c04Certs["t9"], false)
+	cases = append(cases, c04Case{Issuer: 7, AKI: nArg, AKIDer: nDer, Signer: "t9", Chains: [][]string{{"L", "ca1"}}, Trusted: []string{"t9"}, Leaf: "leaf"})
+	c04NoSerial = func() bool { return rng.Intn(6) == 0 }
+	cases = append(cases, c04Case{Issuer: 7, AKI: "kid=-;ser=-;iss=-", AKIDer: derSeq(), Signer: "ca1", Chains: [][]string{{"L", "ca1"}}, Leaf: "leaf"})
 	k76, k76Der := c04AKI(76, nil, false)
 	cases = append(cases, c04Case{Issuer: 100, AKI: k76, AKIDer: k76Der, Signer: "leaf", Chains: [][]string{{"L"}}, Leaf: "leaf"})
 	cases = append(cases, c04Case{Issuer: 100, AKI: "-", Signer: "leaf", Chains: [][]string{{"L"}}, Leaf: "leaf"})
